@@ -3,6 +3,7 @@
 (taken from the sub-agents' own earlier output), asking for different kinds of changes."""
 import json, sys, subprocess, glob, os
 pid = sys.argv[1]; wt = sys.argv[2]; out = sys.argv[3]
+S1, S2 = (sys.argv[4], sys.argv[5]) if len(sys.argv) > 5 else ("g", "h")
 base = subprocess.run(["/verif/tools/seed_prompt.py", pid, wt, out], capture_output=True, text=True).stdout
 tried = []
 for d in sorted(glob.glob("/verif/seeded/%s?" % pid)):
@@ -11,6 +12,7 @@ for d in sorted(glob.glob("/verif/seeded/%s?" % pid)):
 extra = """
 ADDITIONAL CONSTRAINTS FOR THIS ROUND: other engineers have already produced the following changes for this property; yours must be of a DIFFERENT kind and in a different place or mechanism (do not re-do these ideas or small variations of them):
 %s
-Use the suffixes g and h (directories %s/%sg and %s/%sh) instead of a and b. Prefer subtle changes whose effect depends on an INTERACTION (two language features used together, a particular order of API calls or of statements, a value at a boundary such as 0 / negative / empty / very large / repeated, names that resemble keywords or other names, state left over from an earlier call, a platform/environment aspect such as the working directory, line endings or hash seed), so that a test which exercises each feature separately would not notice.
-""" % ("\n".join(tried), out, pid, out, pid)
-print(base.replace("Finish by reporting", extra + "\nFinish by reporting").replace("each change k in (a, b)", "each change k in (g, h)"))
+Use the suffixes %s and %s (directories %s/%s%s and %s/%s%s) instead of a and b. Prefer subtle changes whose effect depends on an INTERACTION (two language features used together, a particular order of API calls or of statements, a value at a boundary such as 0 / negative / empty / very large / repeated, names that resemble keywords or other names, state left over from an earlier call, a platform/environment aspect such as the working directory, line endings or hash seed), so that a test which exercises each feature separately would not notice.
+NOTE: never use `git stash` (stashes are shared between all worktrees of the repository); use `git diff > file` and `git checkout -- .` instead. Changes that merely revert one of the repository's recent 'fix:' commits are not wanted. Changes that only take effect for inputs the property excludes (see "quantified over") are not wanted either.
+""" % ("\n".join(tried), S1, S2, out, pid, S1, out, pid, S2)
+print(base.replace("Finish by reporting", extra + "\nFinish by reporting").replace("each change k in (a, b)", "each change k in (%s, %s)" % (S1, S2)))
